@@ -43,6 +43,10 @@ type TrafficControllerMap map[string][]*TrafficShapingController
 var (
 	tcGenFuncMap = make(map[trafficControllerGenKey]TrafficControllerGenFunc, 6)
 	tcMap        = make(TrafficControllerMap)
+	// refStatTcMap indexes, by referenced resource, the controllers of associated-resource rules that
+	// own an independent statistic; that statistic counts the passed requests of the referenced resource.
+	// It is derived from tcMap and guarded by tcMux.
+	refStatTcMap = make(TrafficControllerMap)
 	tcMux        = new(sync.RWMutex)
 	nopStat      = &standaloneStatistic{
 		reuseResourceStat: false,
@@ -222,6 +226,7 @@ func onRuleUpdate(rawResRulesMap map[string][]*Rule) (err error) {
 
 	tcMux.Lock()
 	tcMap = m
+	rebuildRefStatTcMap()
 	tcMux.Unlock()
 	currentRules = rawResRulesMap
 
@@ -290,6 +295,7 @@ func onResourceRuleUpdate(res string, rawResRules []*Rule) (err error) {
 	} else {
 		tcMap[res] = newResTcs
 	}
+	rebuildRefStatTcMap()
 	tcMux.Unlock()
 	currentRules[res] = rawResRules
 	logging.Debug("[Flow onResourceRuleUpdate] Time statistic(ns) for updating flow rule", "timeCost", util.CurrentTimeNano()-start)
@@ -312,6 +318,7 @@ func LoadRulesOfResource(res string, rules []*Rule) (bool, error) {
 		// clear tcMap
 		tcMux.Lock()
 		delete(tcMap, res)
+		rebuildRefStatTcMap()
 		tcMux.Unlock()
 		logging.Info("[Flow] clear resource level rules", "resource", res)
 		return true, nil
@@ -514,6 +521,31 @@ func getTrafficControllerListFor(name string) []*TrafficShapingController {
 	defer tcMux.RUnlock()
 
 	return tcMap[name]
+}
+
+// getRefStatControllerListFor returns the controllers of associated-resource rules (of any resource)
+// whose independent statistic counts the passed requests of the resource name.
+func getRefStatControllerListFor(name string) []*TrafficShapingController {
+	tcMux.RLock()
+	defer tcMux.RUnlock()
+
+	return refStatTcMap[name]
+}
+
+// rebuildRefStatTcMap derives refStatTcMap from tcMap. The caller must hold tcMux for writing.
+func rebuildRefStatTcMap() {
+	m := make(TrafficControllerMap)
+	for _, tcs := range tcMap {
+		for _, tc := range tcs {
+			if tc == nil || tc.rule == nil || tc.rule.RelationStrategy != AssociatedResource {
+				continue
+			}
+			if !tc.boundStat.reuseResourceStat && tc.boundStat.writeOnlyMetric != nil {
+				m[tc.rule.RefResource] = append(m[tc.rule.RefResource], tc)
+			}
+		}
+	}
+	refStatTcMap = m
 }
 
 func calculateReuseIndexFor(r *Rule, oldResTcs []*TrafficShapingController) (equalIdx, reuseStatIdx int) {
